@@ -4,6 +4,7 @@ from fractions import Fraction
 from xml.sax.saxutils import escape
 
 from bs4 import BeautifulSoup, NavigableString
+from bs4.formatter import XMLFormatter
 
 from ..base import (
     BaseReader, BaseWriter, CaptionSet, CaptionList, Caption, CaptionNode,
@@ -66,6 +67,24 @@ MICROSECONDS_PER_UNIT = {
 }
 
 DFXP_DEFAULT_LANGUAGE_CODE = "en"
+
+
+class AttributeEscapingFormatter(XMLFormatter):
+    """The text of the <p> elements is assembled and escaped by hand, so the
+    document is serialised without entity substitution. Attribute values
+    (style values, class names, language codes) are plain strings however,
+    and have to be escaped for the output to be well-formed.
+    """
+    def __init__(self):
+        super().__init__(entity_substitution=None)
+
+    def attribute_value(self, value):
+        return escape(value)
+
+
+def _quote_attribute(value):
+    """Escape a value for use in a hand-written, double-quoted attribute"""
+    return escape(str(value), {'"': '&quot;'})
 
 
 class DFXPReader(BaseReader):
@@ -399,7 +418,7 @@ class DFXPWriter(BaseWriter):
 
             body.append(div)
         self.region_creator.cleanup_regions()
-        caption_content = dfxp.prettify(formatter=None)
+        caption_content = dfxp.prettify(formatter=AttributeEscapingFormatter())
         return caption_content
 
     @staticmethod
@@ -498,7 +517,7 @@ class DFXPWriter(BaseWriter):
 
             content_with_style = _recreate_style(node.content, dfxp)
             for style, value in list(content_with_style.items()):
-                styles += f' {style}="{value}"'
+                styles += f' {style}="{_quote_attribute(value)}"'
             if node.layout_info:
                 region_id, region_attribs = (
                     self.region_creator.get_positioning_info(
